@@ -113,6 +113,29 @@ func ruleR21(c *Ctx) *RuleResult {
 			if n == 0 {
 				bad = append(bad, "no black-node removal path found")
 			}
+			// after the splice the child is recoloured only when it became the root: anywhere else the missing black was
+			// already repaired by deleteCase1 (or there was none), and blackening the child adds one
+			for _, g := range c.GCTail(fn).GCs {
+				var removed *Term
+				for _, ef := range g.Effects {
+					if nm, a, ok := effDo(ef); ok && nm == "replaceNode" && len(a) == 3 {
+						removed = a[1]
+						continue
+					}
+					if removed == nil || !storeToField(ef, "color") {
+						continue
+					}
+					atRoot := false
+					for _, a := range g.Guards {
+						if a.Op == "==" && len(a.Args) == 2 && a.Args[0].String() == "#:nil" && a.Args[1].Op == "load" && len(a.Args[1].Args) == 1 && a.Args[1].Args[0].Op == "fa" && a.Args[1].Args[0].Leaf == "Parent" && noEpoch(a.Args[1].Args[0].Args[0]) == noEpoch(removed) {
+							atRoot = true
+						}
+					}
+					if !atRoot {
+						bad = append(bad, "after splicing the child in, Remove recolours it on a path that does not know the removed node was the root: "+trunc(noEpoch(ef), 160))
+					}
+				}
+			}
 		}
 		add("rbt.Remove→deleteCase1", "removing a black node runs the deletion fix-up before the node is unlinked", fn, bad, fmt.Sprintf("%d black-node removal paths, all through deleteCase1 before replaceNode", n))
 	}
@@ -758,6 +781,21 @@ func ruleR21b(c *Ctx) *RuleResult {
 					continue
 				}
 				got := g.Exit.Args[0].String()
+				// a boolean expression that the path's own guards decide is that constant (`return child.b != 0` on the
+				// path that knows child.b != 0)
+				if _, isConst := g.Exit.Args[0].constBool(); !isConst {
+					rs := noEpoch(g.Exit.Args[0])
+					for _, a := range g.Guards {
+						if noEpoch(a) == rs {
+							got = "#:true"
+						}
+						for _, na := range atomsOf(a, false) { // the complement of the guard
+							if noEpoch(na) == rs {
+								got = "#:false"
+							}
+						}
+					}
+				}
 				cs := effCallees(g)
 				isZero, isOpp := false, false
 				for _, a := range g.Guards {
